@@ -195,7 +195,7 @@ PROPS = {
         "assumptions": ["formatters keep binding the raw payload fields under the names group/line/kind"],
     },
     "C12": {
-        "rules": [("TAB-4", tab2.tab4), ("SHR-1", tab2.shr1), ("SHR-3", tab2.shr3)],
+        "rules": [("TAB-4", tab2.tab4), ("SHR-1", tab2.shr1), ("SHR-3", tab2.shr3), ("FLW-13", r5.flw13), ("ENV-5", r5.env5)],
         "explanation": "Decides three table/shape clauses of C12. SHR-3: Parser::get_spec_env returns exactly two items, each an Environment with one Env: the first `before = X, after = []`, the second `before = [], after = X` passed through `rev()` (so Rule::split_into_subrules makes two sub-rules, `X_` then `_X` mirrored). SHR-1: in Rule::split_into_subrules each of the four lists (input, output, context, except) is indexed under a length test of that same list (a singleton is shared, otherwise element i) — necessary for 'a condensed rule behaves as its sub-rules'. TAB-4: the letter -> matrix table of Parser::group_to_matrix equals its "
                        "sibling in AliasParser and the table in doc/doc.md § Groupings (feature names resolved through the lexer's own synonym table).",
         "does_not_decide": "that the sub-rules behave as separate rules, optional bounds and `&` expansion (equalities between two interpreter runs).",
@@ -213,7 +213,7 @@ PROPS = {
         "assumptions": ["doc/doc.md keeps its '### Inbuilt Aliases' code blocks", "a helper that tests both members of a pair satisfies SYN-1 by itself"],
     },
     "C03": {
-        "rules": [("ENV-1", env.env1), ("ENV-2", env.env2), ("ENV-3", env.env3), ("FLW-12", flw.flw12), ("PAN-5", pan.pan5)],
+        "rules": [("ENV-1", env.env1), ("ENV-2", env.env2), ("ENV-3", env.env3), ("FLW-12", flw.flw12), ("PAN-5", pan.pan5), ("FLW-13", r5.flw13), ("ENV-5", r5.env5)],
         "explanation": "Decides the plumbing clauses of C03 ('whose left neighbours match the context and do not match the exception', 'scanning left to right'), not the rewrite semantics. "
                        "ENV-1: in SubRule::match_contexts_and_exceptions, for contexts and for exceptions alike, the before-half is a reversed copy of the pair's first element, matched by "
                        "match_before_env on `word.reverse()` at `start_pos.reversed(word)`; the after-half is the pair's second element, matched by match_after_env on the word at end_pos; "
